@@ -81,7 +81,7 @@ def run_property(pid: str, tier: str, seed: int, jobs: int | None = None, only=N
         ct = getattr(mod, "CASE_TIMEOUT", None)
         limit = float(ct.get(tier, 0)) if isinstance(ct, dict) else 0.0
     if not limit:
-        limit = 3600.0 if tier == "thorough" else 900.0
+        limit = 3600.0 if tier == "thorough" else 1500.0  # wall clock per case; generous: a loaded machine must not turn a slow case into a harness error
     reports = []
     if os.environ.get("VERIF_INLINE"):
         for n in names:
